@@ -226,9 +226,9 @@ impl NodeId {
             links_ok(final(arena).nodes@),
             // @ob C02.acyclic@detach C02 C01
             final(arena).acyclic(),
-            // @ob C08.payload_tags_consistent@detach C08 C07
+            // @ob C08.payload_tags_consistent@detach C08
             data_ok(final(arena).nodes@),
-            // @ob C07.free_list_well_formed@detach C07 C08
+            // @ob C07.free_list_well_formed@detach C07
             final(arena).fl_ok(),
             // @ob C08.detach_keeps_every_payload_and_stamp C08
             payload_frame(old(arena).nodes@, final(arena).nodes@),
@@ -284,9 +284,9 @@ impl NodeId {
             links_ok(final(arena).nodes@),
             // @ob C02.acyclic@append C02 C01
             final(arena).acyclic(),
-            // @ob C08.payload_tags_consistent@append C08 C07
+            // @ob C08.payload_tags_consistent@append C08
             data_ok(final(arena).nodes@),
-            // @ob C07.free_list_well_formed@append C07 C08
+            // @ob C07.free_list_well_formed@append C07
             final(arena).fl_ok(),
             final(arena).first_free_slot == old(arena).first_free_slot,
             final(arena).last_free_slot == old(arena).last_free_slot,
@@ -319,9 +319,9 @@ impl NodeId {
             links_ok(final(arena).nodes@),
             // @ob C02.acyclic@checked_append C02 C01
             final(arena).acyclic(),
-            // @ob C08.payload_tags_consistent@checked_append C08 C07
+            // @ob C08.payload_tags_consistent@checked_append C08
             data_ok(final(arena).nodes@),
-            // @ob C07.free_list_well_formed@checked_append C07 C08
+            // @ob C07.free_list_well_formed@checked_append C07
             final(arena).fl_ok(),
             // @ob C05.append_fails_iff_impossible C05 C12
             r is Err <==> insert_impossible(old(arena).nodes@, self, new_child),
@@ -433,9 +433,9 @@ impl NodeId {
             links_ok(final(arena).nodes@),
             // @ob C02.acyclic@append_value C02 C01
             final(arena).acyclic(),
-            // @ob C08.payload_tags_consistent@append_value C08 C07
+            // @ob C08.payload_tags_consistent@append_value C08
             data_ok(final(arena).nodes@),
-            // @ob C07.free_list_well_formed@append_value C07 C08
+            // @ob C07.free_list_well_formed@append_value C07
             final(arena).fl_ok(),
             // @ob C03.append_value_is_new_node_then_append C03 C07
             exists|m: Arena<T>| #[trigger]
@@ -491,9 +491,9 @@ impl NodeId {
             links_ok(final(arena).nodes@),
             // @ob C02.acyclic@prepend C02 C01
             final(arena).acyclic(),
-            // @ob C08.payload_tags_consistent@prepend C08 C07
+            // @ob C08.payload_tags_consistent@prepend C08
             data_ok(final(arena).nodes@),
-            // @ob C07.free_list_well_formed@prepend C07 C08
+            // @ob C07.free_list_well_formed@prepend C07
             final(arena).fl_ok(),
             final(arena).first_free_slot == old(arena).first_free_slot,
             final(arena).last_free_slot == old(arena).last_free_slot,
@@ -526,9 +526,9 @@ impl NodeId {
             links_ok(final(arena).nodes@),
             // @ob C02.acyclic@checked_prepend C02 C01
             final(arena).acyclic(),
-            // @ob C08.payload_tags_consistent@checked_prepend C08 C07
+            // @ob C08.payload_tags_consistent@checked_prepend C08
             data_ok(final(arena).nodes@),
-            // @ob C07.free_list_well_formed@checked_prepend C07 C08
+            // @ob C07.free_list_well_formed@checked_prepend C07
             final(arena).fl_ok(),
             // @ob C05.prepend_fails_iff_impossible C05 C12
             r is Err <==> insert_impossible(old(arena).nodes@, self, new_child),
@@ -641,9 +641,9 @@ impl NodeId {
             links_ok(final(arena).nodes@),
             // @ob C02.acyclic@insert_after C02 C01
             final(arena).acyclic(),
-            // @ob C08.payload_tags_consistent@insert_after C08 C07
+            // @ob C08.payload_tags_consistent@insert_after C08
             data_ok(final(arena).nodes@),
-            // @ob C07.free_list_well_formed@insert_after C07 C08
+            // @ob C07.free_list_well_formed@insert_after C07
             final(arena).fl_ok(),
             final(arena).first_free_slot == old(arena).first_free_slot,
             final(arena).last_free_slot == old(arena).last_free_slot,
@@ -676,9 +676,9 @@ impl NodeId {
             links_ok(final(arena).nodes@),
             // @ob C02.acyclic@checked_insert_after C02 C01
             final(arena).acyclic(),
-            // @ob C08.payload_tags_consistent@checked_insert_after C08 C07
+            // @ob C08.payload_tags_consistent@checked_insert_after C08
             data_ok(final(arena).nodes@),
-            // @ob C07.free_list_well_formed@checked_insert_after C07 C08
+            // @ob C07.free_list_well_formed@checked_insert_after C07
             final(arena).fl_ok(),
             // @ob C05.insert_after_fails_iff_impossible C05 C12
             r is Err <==> insert_impossible(old(arena).nodes@, self, new_sibling),
@@ -796,9 +796,9 @@ impl NodeId {
             links_ok(final(arena).nodes@),
             // @ob C02.acyclic@insert_before C02 C01
             final(arena).acyclic(),
-            // @ob C08.payload_tags_consistent@insert_before C08 C07
+            // @ob C08.payload_tags_consistent@insert_before C08
             data_ok(final(arena).nodes@),
-            // @ob C07.free_list_well_formed@insert_before C07 C08
+            // @ob C07.free_list_well_formed@insert_before C07
             final(arena).fl_ok(),
             final(arena).first_free_slot == old(arena).first_free_slot,
             final(arena).last_free_slot == old(arena).last_free_slot,
@@ -831,9 +831,9 @@ impl NodeId {
             links_ok(final(arena).nodes@),
             // @ob C02.acyclic@checked_insert_before C02 C01
             final(arena).acyclic(),
-            // @ob C08.payload_tags_consistent@checked_insert_before C08 C07
+            // @ob C08.payload_tags_consistent@checked_insert_before C08
             data_ok(final(arena).nodes@),
-            // @ob C07.free_list_well_formed@checked_insert_before C07 C08
+            // @ob C07.free_list_well_formed@checked_insert_before C07
             final(arena).fl_ok(),
             // @ob C05.insert_before_fails_iff_impossible C05 C12
             r is Err <==> insert_impossible(old(arena).nodes@, self, new_sibling),
@@ -948,9 +948,9 @@ impl NodeId {
             links_ok(final(arena).nodes@),
             // @ob C02.acyclic@remove C02 C01
             final(arena).acyclic(),
-            // @ob C08.payload_tags_consistent@remove C08 C07
+            // @ob C08.payload_tags_consistent@remove C08
             data_ok(final(arena).nodes@),
-            // @ob C07.free_list_well_formed@remove C07 C08
+            // @ob C07.free_list_well_formed@remove C07
             final(arena).fl_ok(),
             // @ob C04.remove_splices_children_into_place C04
             remove_post(old(arena).nodes@, final(arena).nodes@, self.idx()),
@@ -1052,9 +1052,9 @@ impl NodeId {
             links_ok(final(arena).nodes@),
             // @ob C02.acyclic@remove_subtree C02 C01
             final(arena).acyclic(),
-            // @ob C08.payload_tags_consistent@remove_subtree C08 C07
+            // @ob C08.payload_tags_consistent@remove_subtree C08
             data_ok(final(arena).nodes@),
-            // @ob C07.free_list_well_formed@remove_subtree C07 C08
+            // @ob C07.free_list_well_formed@remove_subtree C07
             final(arena).fl_ok(),
             final(arena).nodes@.len() == old(arena).nodes@.len(),
             // @ob C12.remove_subtree_removes_the_node C12 C04
@@ -1174,7 +1174,7 @@ impl<T> Node<T> {
     pub fn new(data: T) -> (r: Self)
         // @props C07 C12
         ensures
-            // @ob C12.new_node_has_no_links C12 C07
+            // @ob C12.new_node_has_no_links C12
             no_links(r),
             r.stamp.0 == 0,
             r.data == NodeData::Data(data),
@@ -1195,7 +1195,7 @@ impl<T> Node<T> {
             !(old(self).data is Data),
             old(self).stamp.can_reuse(),
         ensures
-            // @ob C12.recycled_node_has_no_links C12 C07
+            // @ob C12.recycled_node_has_no_links C12
             no_links(*final(self)),
             // @ob C06.recycled_stamp_is_fresh C06
             final(self).stamp.0 == -old(self).stamp.0,
@@ -1278,9 +1278,9 @@ impl<T> Arena<T> {
             links_ok(r.nodes@),
             // @ob C02.acyclic@new C02 C01
             r.acyclic(),
-            // @ob C08.payload_tags_consistent@new C08 C07
+            // @ob C08.payload_tags_consistent@new C08
             data_ok(r.nodes@),
-            // @ob C07.free_list_well_formed@new C07 C08
+            // @ob C07.free_list_well_formed@new C07
             r.fl_ok(),
     {
         proof {
@@ -1298,9 +1298,9 @@ impl<T> Arena<T> {
             links_ok(r.nodes@),
             // @ob C02.acyclic@with_capacity C02 C01
             r.acyclic(),
-            // @ob C08.payload_tags_consistent@with_capacity C08 C07
+            // @ob C08.payload_tags_consistent@with_capacity C08
             data_ok(r.nodes@),
-            // @ob C07.free_list_well_formed@with_capacity C07 C08
+            // @ob C07.free_list_well_formed@with_capacity C07
             r.fl_ok(),
     {
         proof {
@@ -1377,20 +1377,20 @@ impl<T> Arena<T> {
             links_ok(final(self).nodes@),
             // @ob C02.acyclic@new_node C02 C01
             final(self).acyclic(),
-            // @ob C08.payload_tags_consistent@new_node C08 C07
+            // @ob C08.payload_tags_consistent@new_node C08
             data_ok(final(self).nodes@),
-            // @ob C07.free_list_well_formed@new_node C07 C08
+            // @ob C07.free_list_well_formed@new_node C07
             final(self).fl_ok(),
             // @ob C07.new_node_returns_live_id C07 C08
             final(self).live(r) && final(self).at(r).data == NodeData::Data(data),
-            // @ob C12.new_node_starts_unlinked C12 C07
+            // @ob C12.new_node_starts_unlinked C12
             no_links(final(self).at(r)),
             // @ob C07.new_node_slot_held_no_live_node C07
             r.idx() < old(self).nodes@.len() ==> old(self).nodes@[r.idx()].stamp.can_reuse(),
             // @ob C06.new_node_id_is_fresh C06
             r.idx() < old(self).nodes@.len() ==> r.stamp.0 as int == old(self).nodes@[r.idx()].stamp.hw() + 1,
             r.idx() >= old(self).nodes@.len() ==> r.stamp.0 == 0,
-            // @ob C07.new_node_recycles_before_growing C07 C13
+            // @ob C07.new_node_recycles_before_growing C07
             forall|fl: Seq<int>| #[trigger]
                 free_list(old(self).nodes@, old(self).first_free_slot, old(self).last_free_slot, fl) ==> (if fl.len() > 0 {
                     r.idx() == fl[0] && final(self).nodes@.len() == old(self).nodes@.len() && free_list(
@@ -1403,7 +1403,7 @@ impl<T> Arena<T> {
                     r.idx() == old(self).nodes@.len() && final(self).nodes@.len() == old(self).nodes@.len() + 1
                         && free_list(final(self).nodes@, final(self).first_free_slot, final(self).last_free_slot, fl)
                 }),
-            // @ob C08.new_node_leaves_every_other_slot_untouched C08 C07 C01
+            // @ob C08.new_node_leaves_every_other_slot_untouched C08 C07
             forall|i: int| 0 <= i < old(self).nodes@.len() && i != r.idx() ==> final(self).nodes@[i] == old(self).nodes@[i],
             final(self).nodes@.len() >= old(self).nodes@.len(),
             alloc_post(*old(self), *final(self), r, data),
@@ -1535,9 +1535,9 @@ impl<T> Arena<T> {
             links_ok(final(self).nodes@),
             // @ob C02.acyclic@clear C02 C01
             final(self).acyclic(),
-            // @ob C08.payload_tags_consistent@clear C08 C07
+            // @ob C08.payload_tags_consistent@clear C08
             data_ok(final(self).nodes@),
-            // @ob C07.free_list_well_formed@clear C07 C08
+            // @ob C07.free_list_well_formed@clear C07
             final(self).fl_ok(),
     {
         self.nodes.clear();
@@ -1565,15 +1565,15 @@ impl<T> Arena<T> {
             // @ob C12.only_a_node_that_is_out_of_every_tree_is_freed C12 C04 C01
             no_links(old(self).at(id)),
         ensures
-            // @ob C04.free_node_changes_no_link_and_no_other_generation C04 C12
+            // @ob C04.free_node_changes_no_link_and_no_other_generation C04
             free_frame(old(self).nodes@, final(self).nodes@, id.idx()),
             // @ob C01.links_well_formed@free_node C01 C12
             links_ok(final(self).nodes@),
             // @ob C02.acyclic@free_node C02 C01
             final(self).acyclic(),
-            // @ob C08.payload_tags_consistent@free_node C08 C07
+            // @ob C08.payload_tags_consistent@free_node C08
             data_ok(final(self).nodes@),
-            // @ob C07.free_list_well_formed@free_node C07 C08
+            // @ob C07.free_list_well_formed@free_node C07
             final(self).fl_ok(),
             // @ob C02.free_node_keeps_rank_witness C02
             forall|w: Ranks| ranked(old(self).nodes@, w) ==> ranked(final(self).nodes@, w),
@@ -1841,7 +1841,7 @@ pub fn connect_neighbors<T>(
     ensures
         // @ob C08.connect_neighbors_keeps_every_payload_and_stamp C08
         payload_frame(old(arena).nodes@, final(arena).nodes@),
-        // @ob C03.connect_neighbors_exact_effect C03 C04 C01
+        // @ob C03.connect_neighbors_exact_effect C03 C04
         connect_post(old(arena).nodes@, final(arena).nodes@, parent, previous, next),
         final(arena).first_free_slot == old(arena).first_free_slot,
         final(arena).last_free_slot == old(arena).last_free_slot,
@@ -1909,13 +1909,13 @@ pub fn insert_with_neighbors<T>(
         old(arena).live(new),
         // @ob C05.node_is_detached_before_it_is_inserted C05 C03
         is_root(old(arena).nodes@, new.idx()),
-        // @ob C05.insert_position_is_a_gap C05 C03 C01
+        // @ob C05.insert_position_is_a_gap C05 C03
         is_gap(old(arena).nodes@, parent, previous_sibling, next_sibling),
         // @ob C05.node_is_not_its_own_neighbour C05
         not_at(new.idx(), parent),
         not_at(new.idx(), previous_sibling),
         not_at(new.idx(), next_sibling),
-        // @ob C02.inserted_node_is_not_an_ancestor_of_its_new_parent C02 C05 C01
+        // @ob C02.inserted_node_is_not_an_ancestor_of_its_new_parent C02 C05
         parent is Some ==> exists|w: Ranks| ranked(old(arena).nodes@, w) && !in_sub(old(arena).nodes@, w, new.idx(), parent->0.idx()),
     ensures
         // @ob C05.insert_with_neighbors_succeeds C05
@@ -1924,9 +1924,9 @@ pub fn insert_with_neighbors<T>(
         links_ok(final(arena).nodes@),
         // @ob C02.acyclic@insert_with_neighbors C02 C01
         final(arena).acyclic(),
-        // @ob C08.payload_tags_consistent@insert_with_neighbors C08 C07
+        // @ob C08.payload_tags_consistent@insert_with_neighbors C08
         data_ok(final(arena).nodes@),
-        // @ob C07.free_list_well_formed@insert_with_neighbors C07 C08
+        // @ob C07.free_list_well_formed@insert_with_neighbors C07
         final(arena).fl_ok(),
         // @ob C08.insert_keeps_every_payload_and_stamp C08
         payload_frame(old(arena).nodes@, final(arena).nodes@),
@@ -1988,9 +1988,9 @@ pub fn insert_last_unchecked<T>(arena: &mut Arena<T>, new: NodeId, parent: NodeI
         links_ok(final(arena).nodes@),
         // @ob C02.acyclic@insert_last_unchecked C02 C01
         final(arena).acyclic(),
-        // @ob C08.payload_tags_consistent@insert_last_unchecked C08 C07
+        // @ob C08.payload_tags_consistent@insert_last_unchecked C08
         data_ok(final(arena).nodes@),
-        // @ob C07.free_list_well_formed@insert_last_unchecked C07 C08
+        // @ob C07.free_list_well_formed@insert_last_unchecked C07
         final(arena).fl_ok(),
         // @ob C08.insert_last_keeps_every_payload_and_stamp C08
         payload_frame(old(arena).nodes@, final(arena).nodes@),
@@ -2056,7 +2056,7 @@ impl SiblingsRange {
             final(arena).last_free_slot == old(arena).last_free_slot,
             // @ob C08.detach_from_siblings_keeps_every_payload_and_stamp C08
             payload_frame(old(arena).nodes@, final(arena).nodes@),
-            // @ob C03.detach_from_siblings_exact_effect C03 C04 C01
+            // @ob C03.detach_from_siblings_exact_effect C03 C04
             detach_range_post(old(arena).nodes@, final(arena).nodes@, self.first.idx(), self.last.idx()),
             // @ob C03.detaching_a_detached_root_changes_nothing C03
             is_root(old(arena).nodes@, self.first.idx()) && self.first == self.last ==> final(arena).nodes@ == old(arena).nodes@,
@@ -2150,7 +2150,7 @@ impl DetachedSiblingsRange {
                 )),
             // @ob C08.rewrite_parents_keeps_every_payload_and_stamp C08
             payload_frame(old(arena).nodes@, final(arena).nodes@),
-            // @ob C03.rewrite_parents_exact_effect C03 C04 C01
+            // @ob C03.rewrite_parents_exact_effect C03 C04
             forall|c: Seq<int>| #[trigger]
                 is_chain(old(arena).nodes@, self.first.idx(), c) ==> (res is Ok ==> reparent_post(
                     old(arena).nodes@,
@@ -2225,7 +2225,7 @@ impl DetachedSiblingsRange {
             final(arena).last_free_slot == old(arena).last_free_slot,
             // @ob C08.transplant_keeps_every_payload_and_stamp C08
             payload_frame(old(arena).nodes@, final(arena).nodes@),
-            // @ob C03.transplant_exact_effect C03 C04 C01
+            // @ob C03.transplant_exact_effect C03 C04
             forall|c: Seq<int>| #[trigger]
                 is_chain(old(arena).nodes@, self.first.idx(), c) ==> transplant_post(
                     old(arena).nodes@,
